@@ -234,6 +234,45 @@ static void chk_batch(const std::vector<T3> &v, long long &ev, const std::string
         }
 }
 
+// placement: the same arrays with the result starting at every 8-byte offset modulo 64 (word offsets 0..7 from a 64-byte aligned
+// block) and the source at word offsets 0, 1, 3 -- an Element needs 8-byte alignment only; one sentinel word on either side of
+// the result must survive
+static void chk_batch_placed(const std::vector<T3> &v, long long &ev, int only_ro = -1, int only_so = -1)
+{
+    size_t n = v.size();
+    u64 *rb = (u64 *)aligned_alloc(64, (3 * n + 32) * sizeof(u64)), *sb = (u64 *)aligned_alloc(64, (3 * n + 32) * sizeof(u64));
+    for (int ro = 0; ro < 8; ro++)
+        for (int so : {0, 1, 3})
+        {
+            if ((only_ro >= 0 && ro != only_ro) || (only_so >= 0 && so != only_so)) continue;
+            for (size_t i = 0; i < 3 * n + 32; i++) { rb[i] = 0x5E5E5E5E00000000ULL + i; sb[i] = 0x7777777700000000ULL + i; }
+            u64 *res = rb + 8 + ro, *src = sb + 8 + so;
+            for (size_t i = 0; i < n; i++) for (int k = 0; k < 3; k++) src[3 * i + k] = v[i].c[k];
+            Goldilocks3::batchInverse((E3 *)res, (E3 *)src, n); ev++;
+            std::string cs_ = fmt("w=%u op=batchInverse_placed gen=1 n=%zu ro=%d so=%d", W, n, ro, so);
+            for (size_t i = 0; i < n; i++)
+            {
+                T3 r{{res[3 * i], res[3 * i + 1], res[3 * i + 2]}};
+                T3 prod = omul(v[i], r);
+                if (!(prod.c[0] == 1 % PR && prod.c[1] == 0 && prod.c[2] == 0))
+                {
+                    rep().viol(fmt("C09.wrong.batchInverse.placed.w%u", W), cs_, fmt("result at word offset %d (address = %d mod 64), source at word offset %d: element %zu is not the inverse: src*res = (%s)", ro, 8 * ro, so, i, t3s(prod).c_str()));
+                    goto out;
+                }
+            }
+            for (size_t i = 0; i < 3 * n + 32; i++)
+            {
+                bool inres = i >= (size_t)(8 + ro) && i < (size_t)(8 + ro) + 3 * n;
+                if (!inres && rb[i] != 0x5E5E5E5E00000000ULL + i) { rep().viol(fmt("C09.write-outside.batchInverse.placed.w%u", W), cs_, fmt("word %zu of the block that holds the result (result = words %d..%zu) was overwritten", i, 8 + ro, 8 + ro + 3 * n - 1)); goto out; }
+                bool insrc = i >= (size_t)(8 + so) && i < (size_t)(8 + so) + 3 * n;
+                if (!insrc && sb[i] != 0x7777777700000000ULL + i) { rep().viol(fmt("C09.write-outside.batchInverse.placed.w%u", W), cs_, "a word next to the source array was overwritten"); goto out; }
+            }
+        }
+out:
+    free(rb);
+    free(sb);
+}
+
 static T3 parse3(const std::string &s)
 {
     T3 t{{0, 0, 0}};
@@ -266,7 +305,8 @@ static int run_one(const Args &args)
         std::string arr = cs(m, "arr");
         size_t p = 0;
         while (p < arr.size()) { size_t q = arr.find(';', p); if (q == std::string::npos) q = arr.size(); v.push_back(parse3(arr.substr(p, q - p))); p = q + 1; }
-        if (!v.empty()) chk_batch(v, ev);
+        if (!v.empty() && m.count("ro")) chk_batch_placed(v, ev, (int)cu(m, "ro"), (int)cu(m, "so"));
+        else if (!v.empty()) chk_batch(v, ev);
     }
     else chk_mixed(a, b.c[0], ev);
     rep().flush();
@@ -390,6 +430,9 @@ int main(int argc, char **argv)
             chk_batch(gen_array((size_t)n), ev, "gen=1");
             cnt++;
         }
+        for (int n = 1; n <= 40; n++) { chk_batch_placed(gen_array((size_t)n), ev); cnt += 24; }
+        for (int n : {64, 100, 257, 1000, 4099}) { chk_batch_placed(gen_array((size_t)n), ev); cnt += 24; }
+        rep().stat("batchInverse_placements", 45 * 24);
         ev_total += ev;
         states += cnt;
         rep().sample("batchInverse", fmt("\"w\":%u,\"what\":\"every array of length 1..%d over a 6-element alphabet of non-zero elements (%lld arrays) + lengths 8,9,16,33,64,100,257,1000,4099,16384,16385,20001,32769,40002,65537; also in place\"", W, L, cnt), 1);
